@@ -81,6 +81,12 @@ def case(draw):
     bl = [draw(blocks.system(n_sim=(1, 4), q_hi=60, lags=(0, 2), exos=(0, 1), consts=(0, 1), aliases=(0, 1), leaves=(0, 1),
                              horizon=(1, 4), ic_prob=10, nonlinear=draw(st.booleans()), tols=('1e-6', '1e-8')))
           for _ in range(nb)]
+    # every block gets its own variant of the user function f_half and uses it at least once, so that functions
+    # registered on one solver would be visible if they leaked into another
+    for b in bl:
+        b['fscale'] = draw(st.sampled_from([50, 25, 10, -30, 40]))
+        first = b['eqs'][0]
+        first[1] = first[1] + ' + 0.10*f_half(' + first[0] + ')'
     nm = draw(st.sampled_from([1, 1, 2, 0]))
     models = [draw(c09.params(draw(st.sampled_from(['SIM', 'SIMEX1', 'PC'])))) for _ in range(nm)]
     ops = []
@@ -140,7 +146,7 @@ def run(spec):
                 if op[0] == 'solve-block' or not solvers:
                     reduction = op[2] if op[0] == 'solve-block' else True
                     es = EquationSolver(run_equation_reduction=reduction)
-                    for fn, f in blocks.USER_FUNCS.items():
+                    for fn, f in blocks.user_funcs(bspec).items():
                         es.AddFunction(fn, f)
                     kind = 'fresh'
                 else:
@@ -149,6 +155,8 @@ def run(spec):
                         continue
                     reduction = es.RunEquationReduction
                     kind = 'reparsed'
+                    for fn, f in blocks.user_funcs(bspec).items():
+                        es.AddFunction(fn, f)
                     diag_before_compare = True
                 es.TraceStep = trace
                 item = {'type': 'block', 'spec': bspec, 'reduction': bool(reduction)}
